@@ -218,7 +218,9 @@ Inductive kase :=
 | KLim (n : nat) (scripts : list (list lop))
 | KTR (n : nat) (scripts : list (list rop))
 | KPL (n : nat) (maxage : Z) (scripts : list (list pop))
-| KWP (v : wvariant) (waitall : bool) (n : nat) (items : list wbeh)
+| KWP (v : wvariant) (waitall : bool) (n : nat) (jn : nat) (items : list wbeh)
+    (* n: the pool size the options yield with today's constants (model); jn: the capacity the
+       caller configured, against which the observed log is judged *)
 | KWG (n : nat) (items : list bool)
 | KCtor (obj : nat) (n : Z)
 | KErr.     (* the implementation hung / never became quiescent: nothing can be confirmed *)
@@ -255,7 +257,7 @@ Definition agrees1 (c : case1) : bool :=
     | KPL n ma sc =>
       let '(s, ok) := drive pstep p_at_gate (fun s _ => s) p_statuses (pinit n ma sc) (csteps c) in
       ok && zss_eqb (map pres (pthreads s)) (cres c)
-    | KWP v wa n items =>
+    | KWP v wa n _ items =>
       let '(s, ok) := drive wstep w_at_gate (fun s _ => s) (w_statuses wa) (winit v n items) (csteps c) in
       ok && zss_eqb (w_results wa s) (cres c)
     | KWG n items =>
@@ -279,7 +281,7 @@ Definition model_obs1 (c : case1) : list (Z * Z) * list (list Z) :=
   | KPL n ma sc =>
     let '(s, ok) := drive pstep p_at_gate (fun s _ => s) p_statuses (pinit n ma sc) (csteps c) in
     (p_statuses s, map pres (pthreads s))
-  | KWP v wa n items =>
+  | KWP v wa n _ items =>
     let '(s, ok) := drive wstep w_at_gate (fun s _ => s) (w_statuses wa) (winit v n items) (csteps c) in
     (w_statuses wa s, w_results wa s)
   | KWG n items =>
@@ -473,7 +475,7 @@ Definition prop_ok1 (c : case1) : bool :=
   | KLim n sc => lim_scan (Z.of_nat n) sc (clog c) 0 0
   | KTR n sc => tr_scan (Z.of_nat n) sc (clog c) 0 0 0
   | KPL n ma sc => pl_scan (Z.of_nat n) ma sc (clog c) (mkPM [] [] [] [] [] 0 1000000 [])
-  | KWP v wa n items => wp_scan (Z.of_nat n) (clog c) 0 [] && wp_complete v items (clog c)
+  | KWP v wa _ jn items => wp_scan (Z.of_nat jn) (clog c) 0 [] && wp_complete v items (clog c)
   | KWG n items => wp_scan (Z.of_nat n) (clog c) 0 [] && wg_complete n (clog c)
   | KCtor _ _ => true
   | KErr => false
